@@ -360,6 +360,25 @@ contains
        call sim_phase(1); call str_ptr_out(buf, int(b, C_INT)); call sim_phase(0); call res_str(buf); deallocate(buf)
 #endif
 #ifndef SIMC
+    case ("item_combine")
+       call sim_phase(1); r = h(a)%combine(h(b)); call sim_phase(0); call res_int(int(r))
+#endif
+#ifndef SIMC
+    case ("pass_item")
+       call sim_phase(1); r = pass_item(h(a)); call sim_phase(0); call res_int(int(r))
+#endif
+#ifndef SIMC
+    case ("vec_dot")
+       block
+         integer(C_INT), allocatable :: va(:), vb(:)
+         allocate(va(a), vb(b))
+         do i = 1, a; va(i) = i; end do
+         do i = 1, b; vb(i) = 2 * i; end do
+         call sim_phase(1); r = vec_dot(va, vb); call sim_phase(0); call res_int(int(r))
+         deallocate(va, vb)
+       end block
+#endif
+#ifndef SIMC
     case ("ref_item")
        call sim_phase(1); h(a) = ref_item(); call sim_phase(0); call res_none()
 #endif
